@@ -68,6 +68,9 @@ type Ledger struct {
 	// Signers set by MultiSignAccountTx per supported type.
 	Signers map[types.SupportType]*types.SignersInfo
 
+	// Graves are addresses of contracts removed by SELFDESTRUCT (plain accounts again).
+	Graves []common.Address
+
 	Height     uint64
 	Mismatches []Mismatch
 	// Unmodelled is set when a block contained something the model cannot
@@ -420,6 +423,7 @@ func (l *Ledger) ApplyBlock(height uint64, items []*Item, receipts types.Receipt
 		}
 		delete(l.Contracts, a)
 		l.nonce[a] = 0
+		l.Graves = append(l.Graves, a)
 	}
 	return nil
 }
